@@ -25,6 +25,7 @@ use altrios_core::meet_pass::disp_structs::*;
 use altrios_core::meet_pass::est_times::{verif_hooks, EstTime};
 use altrios_core::prelude::*;
 use altrios_core::track::*;
+use altrios_core::traits::SerdeAPI;
 use altrios_core::uc;
 use altrios_core::validate::*;
 use serde_json::json;
@@ -431,14 +432,13 @@ fn drive_passes(ctx: &mut Ctx, real: bool, pre: &[Nd], depart: f64, input: Inp) 
     let id = ctx.op("C15", "est_forward", &format!("{} {}", nds_tok(pre), f(depart)), &ans_nodes(&mid));
     ctx.count(&format!("est.pass.{}.forward_{}", tag, if mid.is_some() { "ok" } else { "panic" }));
     let mid = match mid { Some(m) => m, None => {
-        if real {
-            ctx.checked("C15", "pass_no_panic");
-            ctx.fail("C15", "pass_no_panic", &id, format!("update_times_forward panicked on the graph make_est_times built: {}", last_panic()), input());
-        }
+        let cl = if real { "pass_no_panic" } else { "redrawn.pass_no_panic" };
+        ctx.checked("C15", cl);
+        ctx.fail("C15", cl, &id, format!("update_times_forward panicked on a well-linked graph: {}", last_panic()), input());
         return None; } };
     let relinked = pre.iter().zip(&mid).filter(|(a, b)| a.next != b.next || a.prev != b.prev).count();
     ctx.count(if relinked > 0 { "est.pass.forward_relinked" } else { "est.pass.forward_no_relink" });
-    ctx.count_n("est.pass.forward_relinked_nodes", relinked as u64);
+    ctx.count_n("est.pass.nodes_relinked_forward", relinked as u64);
     // forward result = shortest path from the start, exactly
     let (okf, why) = fwd_shortest_ok(&mid, depart);
     ctx.op("C15", "est_fwd_check", &format!("{} {}", nds_tok(&mid), f(depart)), &format!("ok {}", b(okf)));
@@ -446,22 +446,21 @@ fn drive_passes(ctx: &mut Ctx, real: bool, pre: &[Nd], depart: f64, input: Inp) 
         ctx.checked("C15", "forward_is_shortest_path");
         if !okf { ctx.fail("C15", "forward_is_shortest_path", &id, why, input()); }
     } else {
-        // latent: with arbitrary durations the pass discovers an alternate only when its split node is popped
-        ctx.count(if okf { "est.redrawn.forward_shortest" } else { "est.redrawn.forward_not_shortest" });
+        ctx.checked("C15", "redrawn.forward_is_shortest_path");
+        if !okf { ctx.fail("C15", "redrawn.forward_is_shortest_path", &id, why, input()); }
     }
     let post = run_backward(&mid);
     let id2 = ctx.op("C15", "est_backward", &nds_tok(&mid), &ans_nodes(&post));
     ctx.count(&format!("est.pass.{}.backward_{}", tag, if post.is_some() { "ok" } else { "panic" }));
     let post = match post { Some(p) => p, None => {
-        if real {
-            ctx.checked("C15", "pass_no_panic");
-            ctx.fail("C15", "pass_no_panic", &id2, format!("update_times_backward panicked on the forward pass's output: {}", last_panic()), input());
-        }
+        let cl = if real { "pass_no_panic" } else { "redrawn.pass_no_panic" };
+        ctx.checked("C15", cl);
+        ctx.fail("C15", cl, &id2, format!("update_times_backward panicked on the forward pass's output: {}", last_panic()), input());
         return None; } };
-    if real { ctx.checked("C15", "pass_no_panic"); }
+    ctx.checked("C15", if real { "pass_no_panic" } else { "redrawn.pass_no_panic" });
     let relinked = mid.iter().zip(&post).filter(|(a, b)| a.next != b.next || a.prev != b.prev).count();
     ctx.count(if relinked > 0 { "est.pass.backward_relinked" } else { "est.pass.backward_no_relink" });
-    ctx.count_n("est.pass.backward_relinked_nodes", relinked as u64);
+    ctx.count_n("est.pass.nodes_relinked_backward", relinked as u64);
     Some((mid, post))
 }
 
@@ -500,6 +499,26 @@ fn oracle_final(ctx: &mut Ctx, c: &Case, g: &[Nd], short: bool, input: Inp) -> V
         }
     }
     if v.links && v.fin { oracle_time_clauses(ctx, &id, g, TOL, input); }
+    // the trip ends with its last event: every link into the chain of end fakes takes no time
+    if v.links && v.walks {
+        let n = g.len();
+        let mut in_end = vec![false; n];
+        // reverse index order is not topological in general: iterate to the fixpoint
+        loop {
+            let mut ch = false;
+            for i in 0..n {
+                if !in_end[i] && g[i].ty == 2 && succs(&g[i]).iter().all(|(w, _)| in_end[*w]) { in_end[i] = true; ch = true; }
+            }
+            if !ch { break; }
+        }
+        ctx.checked("C15", "end_chain_zero_duration");
+        for (i, x) in g.iter().enumerate() {
+            if x.next != 0 && in_end[x.next] && x.ttn != 0.0 {
+                ctx.fail("C15", "end_chain_zero_duration", &id, format!("node {} leads into the end chain with time_to_next {} (the end is scheduled later than the last event)", i, x.ttn), input());
+                break;
+            }
+        }
+    }
     // running time: what `get_running_time_hours` computes, and what it means
     let (first, last) = (g[0].ts, g[g.len() - 1].ts);
     let hours = (uc::S * last - uc::S * first).get::<altrios_core::si::hour>();
@@ -664,8 +683,40 @@ fn gen_scen(r: &mut Rng, big: bool) -> Scen {
     Scen { en, east, origs, dests, depart, train, desc, short }
 }
 
+/// corpus: past failures (replays of the repaired defects) as `{network, speed_limit_train_sim}` JSON files in
+/// /verif/corpus/C15; they run first, independent of the seed
+fn corpus_scens() -> Vec<(String, Scen)> {
+    let mut out = vec![];
+    let dir = "/verif/corpus/C15";
+    let mut names: Vec<String> = match std::fs::read_dir(dir) {
+        Ok(d) => d.filter_map(|e| e.ok()).filter_map(|e| e.file_name().into_string().ok()).filter(|n| n.ends_with(".json")).collect(),
+        Err(_) => vec![],
+    };
+    names.sort();
+    for n in names {
+        let txt = match std::fs::read_to_string(format!("{}/{}", dir, n)) { Ok(t) => t, Err(_) => continue };
+        let j: serde_json::Value = match serde_json::from_str(&txt) { Ok(j) => j, Err(_) => continue };
+        let inp = if j.get("input").is_some() { j["input"].clone() } else { j.clone() };
+        let net: Vec<Link> = match serde_json::from_value(inp["network"].clone()) { Ok(n) => n, Err(_) => continue };
+        let train = match guard(|| SpeedLimitTrainSim::from_json(&inp["speed_limit_train_sim"].to_string())) { Some(Ok(t)) => t, _ => continue };
+        let oi: Vec<usize> = train.origs.iter().map(|o| o.link_idx.idx()).collect();
+        let di: Vec<usize> = train.dests.iter().map(|o| o.link_idx.idx()).collect();
+        let min_len = min_route_len(&net, &oi, &di);
+        let short = min_len <= train.state.length.value + 5.0 * 1609.344;
+        let desc = json!({"corpus_file": n, "origs": oi, "dests": di, "depart_s": train.state.time.value, "train_length_m": train.state.length.value, "shortest_route_m": min_len});
+        let sc = Scen { en: EstNet { net, main_fwd: vec![], main_rev: vec![], sidings: vec![] }, east: true, origs: train.origs.clone(), dests: train.dests.clone(),
+            depart: train.state.time.value, train, desc, short };
+        out.push((n, sc));
+    }
+    out
+}
+
 fn scenario(ctx: &mut Ctx, r: &mut Rng, big: bool, n_redraw: usize, n_mut: usize) {
     let sc = gen_scen(r, big);
+    run_scen(ctx, r, sc, n_redraw, n_mut);
+}
+
+fn run_scen(ctx: &mut Ctx, r: &mut Rng, sc: Scen, n_redraw: usize, n_mut: usize) {
     if let Err(e) = sc.en.net.validate() {
         ctx.count("est.net_invalid");
         ctx.sample("est.net_invalid", json!(format!("{:?}", e).chars().take(300).collect::<String>()));
@@ -695,6 +746,12 @@ fn scenario(ctx: &mut Ctx, r: &mut Rng, big: bool, n_redraw: usize, n_mut: usize
         None => {
             // construction aborted: outside the quantifier ("for which construction succeeds"), recorded
             ctx.count(if sc.short { "est.construction_panic.short_route" } else { "est.construction_panic.other" });
+            if !sc.short {
+                // not a clause of C15 (which speaks of successful constructions), but never seen on the repaired tree:
+                // an abort of the construction or of its passes on a valid long route is reported
+                ctx.checked("C15", "construction_panic");
+                ctx.fail("C15", "construction_panic", "scenario", format!("make_est_times panicked on a valid network with a route long enough for the train to run: {}", last_panic()), full());
+            }
             ctx.sample("est.construction_panic", json!({"panic": last_panic(), "scenario": sc.desc}));
             return;
         }
@@ -730,16 +787,30 @@ fn scenario(ctx: &mut Ctx, r: &mut Rng, big: bool, n_redraw: usize, n_mut: usize
             ctx.fail("C15", "manual_passes_equal_real", "scenario", "update_times_forward/backward through the hook wrappers differ from make_est_times's own result".into(), pin());
         }
     }
-    // same topology, re-drawn durations: many more relinking decisions for the correspondence of the passes.
-    // These graphs are not outputs of make_est_times: what the clauses say about them is recorded as statistics.
+    // same topology, re-drawn durations: many more relinking decisions (ties, zeros, arbitrary doubles) for the
+    // correspondence of the passes.  These graphs are not outputs of make_est_times, so they are outside the
+    // property's quantifier; but the passes claim to be shortest-path passes for any durations, and (after
+    // C15-fix-1..3) they are on every such graph: a violation is reported under its own clause names.
     for _ in 0..n_redraw {
         let (h, dep) = redraw(r, &pre_n);
-        let rin = || json!({"kind": "passes_redrawn", "pre_pass_nodes": nds_json(&h), "time_depart": dep});
+        let rin = || json!({"kind": "passes_redrawn", "pre_pass_nodes": nds_json(&h), "time_depart": dep,
+            "how": "verif_update_times_forward(nodes, time_depart) then verif_update_times_backward(nodes); node = [time_sched, time_to_next, dist_to_next, speed, idx_next, idx_next_alt, idx_prev, idx_prev_alt, link_idx, est_type 0 arrive 1 clear 2 fake]"});
         if let Some((_m, post)) = drive_passes(ctx, false, &h, dep, &rin) {
-            let (_, v) = check_op(ctx, &c, &post);
-            let mut seen: Vec<&str> = vec![];
-            for (cl, _) in &v.detail { if !seen.contains(&cl.as_str()) { seen.push(cl); ctx.count(&format!("est.redrawn.violates.{}", cl)); } }
-            ctx.count(if v.links && v.walks && v.route { "est.redrawn.structure_kept" } else { "est.redrawn.structure_broken" });
+            let (id, vr) = check_op(ctx, &c, &post);
+            for cl in ["links_mutual", "walks_reach_end", "next_links_tight", "alt_not_later", "durations_nonneg", "times_finite"] {
+                ctx.checked("C15", &format!("redrawn.{}", cl));
+            }
+            for (cl, d) in &vr.detail {
+                if ["links_mutual", "walks_reach_end", "next_links_tight", "alt_not_later", "durations_nonneg", "times_finite"].contains(&cl.as_str()) {
+                    ctx.fail("C15", &format!("redrawn.{}", cl), &id, d.clone(), rin());
+                }
+            }
+            // relinking must not change which event sequences the walks see
+            ctx.checked("C15", "redrawn.route_verdict_kept");
+            if vr.links && vr.walks && vr.route != v.route {
+                ctx.fail("C15", "redrawn.route_verdict_kept", &id, format!("route clause {} on the real graph but {} after the passes with re-drawn durations", v.route, vr.route), rin());
+            }
+            ctx.count(if vr.nonneg { "est.redrawn.times_nonneg" } else { "est.redrawn.some_time_negative" });
         }
     }
     mutants(ctx, r, &c, &fin, n_mut);
@@ -751,7 +822,13 @@ pub fn run(ctx: &mut Ctx, r: &mut Rng, tier: &str) {
     if !ok {
         ctx.fail("C15", "running_time_source", "source", format!("get_running_time_hours no longer returns last minus first scheduled time in hours: {}", what), json!({"file": "rust/altrios-core/src/meet_pass/est_times/mod.rs"}));
     }
-    let (n, n_redraw, n_mut) = if tier == "thorough" { (5000, 8, 8) } else { (400, 6, 6) };
+    let (n, n_redraw, n_mut) = if tier == "thorough" { (3000, 8, 8) } else { (500, 6, 6) };
+    for (name, sc) in corpus_scens() {
+        ctx.count("est.corpus_cases");
+        ctx.sample("est.corpus", json!(name));
+        let mut rr = Rng::new(0xC15);
+        run_scen(ctx, &mut rr, sc, n_redraw, n_mut);
+    }
     for i in 0..n {
         let mut rr = r.fork();
         scenario(ctx, &mut rr, tier == "thorough" && i % 3 == 0, n_redraw, n_mut);
